@@ -186,6 +186,9 @@ func (sc *Scope) evalIdent(name string) Val {
 		}
 		return Val{T: c.hget(sc.cur, comp), S: s, GT: t, TrackArr: strings.HasPrefix(string(s), "(Array ")}
 	}
+	if ti := sc.tracks[name]; ti != nil {
+		return Val{T: "track", Track: ti}
+	}
 	if sc.pkg != nil {
 		if obj := sc.pkg.Scope().Lookup(name); obj != nil {
 			if v, ok := sc.pkgObj(obj); ok {
@@ -195,9 +198,6 @@ func (sc *Scope) evalIdent(name string) Val {
 	}
 	if p := sc.lookupPkg(name); p != nil {
 		return Val{T: "pkg", PkgRef: p}
-	}
-	if ti := sc.tracks[name]; ti != nil {
-		return Val{T: "track", Track: ti}
 	}
 	sc.fail("unknown identifier %s", name)
 	return Val{}
@@ -341,6 +341,8 @@ func (sc *Scope) evalSel(x *ESel) Val {
 		if _, isSlice := ft.Underlying().(*types.Slice); isSlice && !strings.Contains(t, "q!") && !strings.Contains(t, "sp!") && !strings.Contains(t, "dummy!") {
 			// every slice value in the heap is well-formed (0 <= len <= cap, nil array => cap 0)
 			c.defFact(c.rangeFact(t, ft, 0))
+			// and reachable from the heap, hence allocated (in the state it is read from)
+			c.defFact(c.allocFact(sc.cur, Val{T: t, S: SSlice, GT: ft}))
 		}
 		return Val{T: t, S: c.sortOf(ft), GT: ft}
 	}
@@ -853,6 +855,37 @@ func (sc *Scope) evalCall(x *ECall) Val {
 		v := arg(1)
 		comp := c.elemComp(tv.TypeLit)
 		return Val{T: fmt.Sprintf("(forall ((r!e Ref)) (! (=> (and (select %s (root r!e)) (not (= (root r!e) (root (sl_arr %s))))) (= (select %s r!e) (select %s r!e))) :pattern ((select %s r!e))))", c.hget(sc.old, "$alloc"), v.T, c.hget(sc.cur, comp), c.hget(sc.old, comp), c.hget(sc.cur, comp)), S: SBool, GT: boolT}
+	case "only_changed":
+		// only_changed(T.f, x): field component T.f is unchanged at every object allocated in
+		// the old state, except possibly x
+		need(2)
+		sel, ok := x.Args[0].(*ESel)
+		if !ok {
+			sc.fail("only_changed(T.f, x)")
+		}
+		tv := sc.eval(sel.X)
+		if tv.TypeLit == nil {
+			sc.fail("only_changed(T.f, x): T must be a type")
+		}
+		st, ok := tv.TypeLit.Underlying().(*types.Struct)
+		if !ok {
+			sc.fail("only_changed: not a struct type")
+		}
+		idx := -1
+		for i := 0; i < st.NumFields(); i++ {
+			if st.Field(i).Name() == sel.Name {
+				idx = i
+			}
+		}
+		if idx < 0 {
+			sc.fail("only_changed: no field %s", sel.Name)
+		}
+		comp := c.fieldComp(tv.TypeLit, idx)
+		xv := arg(1)
+		if xv.S == "Nil" {
+			xv = Val{T: "nil", S: SRef}
+		}
+		return Val{T: fmt.Sprintf("(forall ((r!o Ref)) (! (=> (and (select %s (root r!o)) (not (= r!o %s))) (= (select %s r!o) (select %s r!o))) :pattern ((select %s r!o))))", c.hget(sc.old, "$alloc"), xv.T, c.hget(sc.cur, comp), c.hget(sc.old, comp), c.hget(sc.cur, comp)), S: SBool, GT: boolT}
 	case "zero":
 		need(1)
 		tv := sc.eval(x.Args[0])
